@@ -314,7 +314,7 @@ func readPackageInfo(directory string) (*PackageInfo, error) {
 
 	decoder := yaml.NewDecoder(f)
 	decoder.KnownFields(true)
-	err = decoder.Decode(&packageInfo)
+	err = decoder.Decode(packageInfo)
 	if err != nil {
 		return packageInfo, validation.NewValidationError(err, packageFilePath)
 	}
